@@ -308,7 +308,23 @@ impl FObs for Wrap { fn fobs(&self) -> String { fobs_str(&self.0) } }
 /// a user type with From<&str>, Display and AsRef<str> (inner type of default / transparent variants)
 #[derive(Debug, Clone, PartialEq, Eq, Default, Hash)]
 pub struct Wrap(pub String);
-impl<'a> From<&'a str> for Wrap { fn from(s: &'a str) -> Wrap { Wrap(s.to_string()) } }
+thread_local! { pub static CONVS: std::cell::Cell<usize> = std::cell::Cell::new(0); pub static TICKS: std::cell::Cell<usize> = std::cell::Cell::new(0); }
+/// conversions from &str are COUNTED: a parser may convert the input only when it really builds the catch-all variant
+impl<'a> From<&'a str> for Wrap { fn from(s: &'a str) -> Wrap { CONVS.with(|c| c.set(c.get() + 1)); Wrap(s.to_string()) } }
+pub fn take_convs() -> usize { CONVS.with(|c| c.replace(0)) }
+/// a payload whose `Default` is OBSERVABLE (constructions are counted) and which also has an inherent `default()` that returns something
+/// else: only `Default::default()` of the values actually returned may run, and it is the trait's
+#[derive(Debug, Clone, PartialEq)]
+pub struct Tick(pub u8);
+impl Default for Tick { fn default() -> Tick { TICKS.with(|c| c.set(c.get() + 1)); Tick(0) } }
+impl Tick { pub fn default() -> Tick { Tick(99) } }
+pub fn take_ticks() -> usize { TICKS.with(|c| c.replace(0)) }
+/// a payload that has NO usable default (it panics): values of the variants before it can still be produced
+#[derive(Debug, Clone, PartialEq)]
+pub struct Boom;
+impl Default for Boom { fn default() -> Boom { panic!("Boom has no default") } }
+impl FObs for Boom { fn fobs(&self) -> String { "boom".to_string() } }
+impl FObs for Tick { fn fobs(&self) -> String { if self.0 == 0 { "d".to_string() } else { format!("h:{}", hex(format!("{:?}", self).as_bytes())) } } }
 impl std::fmt::Display for Wrap { fn fmt(&self, f: &mut std::fmt::Formatter) -> std::fmt::Result { std::fmt::Display::fmt(&self.0, f) } }
 impl AsRef<str> for Wrap { fn as_ref(&self) -> &str { &self.0 } }
 pub fn quiet_panics() { std::panic::set_hook(Box::new(|_| {})); }
@@ -614,7 +630,7 @@ class Corpus:
                 and not self.meta[k].get("twin") and self.meta[k].get("twin", 0) is not None or False]
         base = [k for k in self.defs if not self.defs[k].tparams and not self.defs[k].lifetimes and self.defs[k].variants
                 and not self.meta[k].get("shadow_prelude") and "twin" not in self.meta[k] and not self.meta[k].get("probe_only")
-                and any(v.fields for v in self.defs[k].variants)]
+                and not getattr(self.defs[k], "in_fn_body", False) and any(v.fields for v in self.defs[k].variants)]
         if not base:
             base = [k for k in self.defs if not self.defs[k].tparams and not self.defs[k].lifetimes and self.defs[k].variants
                     and not self.meta[k].get("shadow_prelude") and "twin" not in self.meta[k] and not self.meta[k].get("probe_only")]
